@@ -340,6 +340,45 @@ def task_entry(task: Tuple[str, int], col: common.Collector) -> None:
                          lambda: odxtools.load_odx_d_file(p1), {})
             _judge_entry(col, "load_file(odx-d)", name, ref, ref_extra,
                          lambda: odxtools.load_file(p1), {})
+        # ODX members may carry the plain ".odx" suffix or upper-case suffixes: the result must
+        # not depend on the entry point for those either (the reference is the original)
+        odx_members = [n for n in members if H.is_odx_name(n)]
+        for vname, ren in (("plain-odx-suffix", lambda n: n.rsplit(".", 1)[0] + ".odx"),
+                           ("upper-case-suffix", lambda n: n.rsplit(".", 1)[0] + "." +
+                            n.rsplit(".", 1)[1].upper())):
+            if not odx_members:
+                break
+            victim = odx_members[-1] if vname == "plain-odx-suffix" else odx_members[0]
+            mapping = {n: (ren(n) if n == victim else n) for n in members}
+            if len(set(mapping.values())) != len(members):
+                continue
+            d2 = os.path.join(tmp, "dir_" + vname)
+            os.mkdir(d2)
+            contents = H.pdx_members(pdx2)
+            import io
+            import zipfile
+            zb = io.BytesIO()
+            with zipfile.ZipFile(zb, "w") as zf:
+                for n in members:
+                    zf.writestr(mapping[n], contents[n])
+                    with open(os.path.join(d2, mapping[n]), "wb") as f:
+                        f.write(contents[n])
+            zp2 = os.path.join(tmp, vname + ".pdx")
+            with open(zp2, "wb") as f:
+                f.write(zb.getvalue())
+            det = {"renamed": [victim, mapping[victim]]}
+            _judge_entry(col, f"renamed/{vname}/load_pdx_file", name, ref, ref_extra,
+                         lambda zp2=zp2: odxtools.load_pdx_file(zp2), det)  # type: ignore[misc]
+            _judge_entry(col, f"renamed/{vname}/load_directory", name, ref, ref_extra,
+                         lambda d2=d2: odxtools.load_directory(d2), det)  # type: ignore[misc]
+            cwd2 = os.getcwd()
+            os.chdir(d2)
+            try:
+                rel2 = [mapping[n] for n in members]
+                _judge_entry(col, f"renamed/{vname}/load_files(relative)", name, ref, ref_extra,
+                             lambda rel2=rel2: odxtools.load_files(*rel2), det)  # type: ignore[misc]
+            finally:
+                os.chdir(cwd2)
         zorders = [("reversed", members[::-1]), ("index-first",
                                                  sorted(members, key=lambda n: n != "index.xml"))]
         for k in range(nshuffles):
